@@ -46,7 +46,7 @@ func isErrType(err error, t flags.ErrorType) bool {
 	return ok && fe.Type == t
 }
 
-var c19Values = []string{"plain", "with space", `q"uote`, `back\slash`, "line\nbreak", "A", "é", "tab\there", "日本", "", ":", "a:b c", `\"`, "x", "ends\\"}
+var c19Values = []string{"plain", " padded ", "with space", `q"uote`, `back\slash`, "line\nbreak", "A", "é", "tab\there", "日本", "", ":", "a:b c", `\"`, "x", "ends\\"}
 
 // render a value as a Go string literal in one of three ways
 func c19Render(v string, how int) string {
@@ -303,7 +303,7 @@ func init() {
 				c.Skip()
 			}
 			how := c.Choose(3)
-			what := c.Choose(7)
+			what := c.Choose(8)
 			nAlias := c.Choose(4)
 			inner := reflect.StructOf([]reflect.StructField{sfield("X", strT, `long:"x"`)})
 			posInner := reflect.StructOf([]reflect.StructField{sfield("A", strT, ""), sfield("R", reflect.TypeOf([]string{}), "")})
@@ -405,6 +405,17 @@ func init() {
 						return "positional-default-name", "R", as[1].Name
 					}
 					return "positional-range", [2]int{2, 5}, [2]int{as[1].Required, as[1].RequiredMaximum}
+				}
+			case 7:
+				// two commands declared in non-alphabetical order: the public list keeps the declaration order, also after
+				// the parse that asks for a command (which sorts names for its message)
+				fields = []reflect.StructField{sfield("Z", inner, "command:"+c19Render("z"+val, how)), sfield("A", inner, "command:"+c19Render("a"+val, how)+` alias:"zz"`)}
+				verify = func(p *flags.Parser) (string, interface{}, interface{}) {
+					cs := p.Commands()
+					if len(cs) != 2 {
+						return "commands", 2, len(cs)
+					}
+					return "command-order", []string{"z" + val, "a" + val}, []string{cs[0].Name, cs[1].Name}
 				}
 			case 6:
 				n := vi % 5 // 0..4: a count of zero is a count like any other
@@ -608,7 +619,7 @@ func init() {
 		Body:       body,
 		Rule: "(i) every tag string of length <= 8 (quick) / <= 9 (thorough) over {a : \" \\ space LF}, alone and behind a well-formed long:\"opt\", classified by a reference tag grammar (accept / reject / grey); " +
 			"(ii) 9 option attributes x 15 values (blanks, quotes, backslashes, line breaks, tabs, multi-byte text, empty, colons) x 3 escape renderings (strconv.Quote, all-\\xNN, octal+raw) x 1..3 repetitions x 1..3 blanks; " +
-			"(iii) required/optional/hidden x 9 spellings x present/absent x short names of 0/1/2 characters incl. multi-byte; (iv) group name/namespace/env-namespace, command name + 0..3 aliases, descriptions, positional names, ranges and minimum counts (0..4) x values x renderings; " +
+			"(iii) required/optional/hidden x 9 spellings x present/absent x short names of 0/1/2 characters incl. multi-byte; (iv) group name/namespace/env-namespace, command name + 0..3 aliases, two commands in non-alphabetical order (Commands() keeps the declaration order), descriptions, positional names, ranges and minimum counts (0..4) x values x renderings; " +
 			"(v) every pair of placements {top, plain subgroup, namespaced, doubly namespaced} x {same name, near miss, collision created by namespaces} x {long, short incl. non-ASCII} x {declared through NewParser, added with (*Group).AddGroup to an existing group, NewNamedParser with NamespaceDelimiter \"-\" set before AddGroup}; (every declaration whose first field's tag has an even length is followed by a successful AddGroup before the first use: a setup error must survive it); (vi) default tags on bool / []bool / *bool / []*bool / **bool / *[]bool / func() vs string types; " +
 			"oracle: exported model fields echo the attributes exactly, malformed tags => ErrTag, long short name => ErrShortNameTooLong, bool default => ErrInvalidTag, colliding names => ErrDuplicatedFlag, never a panic; distinct = distinct (part, cell, error class)",
 		Assumptions:  []string{"keys containing control characters or backslashes, and empty keys, are grey (no panic, any error typed)", "single-valued keys are repeated with the same value only", "falsy spellings false/no/0 do not set a mark on options (pinned by the repository's tests)"},
